@@ -172,7 +172,8 @@ MPMSUpTo(g, outs, k) ==
            mps  == UNION {prev[c].mp : c \in kids}
        IN IF AlreadyMat(g, outs, k) THEN Append(prev, [mp |-> {k}, mat |-> FALSE])
           ELSE IF g.nodes[k].kind \in {"alias", "ncr"} THEN Append(prev, [mp |-> mps, mat |-> FALSE])
-          ELSE IF NSucc(g, k) > 1 /\ Cardinality(mps) > 1
+          \* a node the user tagged ImplInlined / ImplSubstitution keeps that choice
+          ELSE IF NSucc(g, k) > 1 /\ Cardinality(mps) > 1 /\ ~g.nodes[k].implother
                THEN Append(prev, [mp |-> {k}, mat |-> TRUE])
           ELSE Append(prev, [mp |-> mps, mat |-> FALSE])
 
